@@ -637,37 +637,81 @@ func runC19Conc(ch *core.Chooser, env *Env, out *Outcome) *Outcome {
 			}
 		}
 	}
+	// Each fault is a TASK of its own (an application thread that closes the
+	// storage or swaps a handle): the scheduler holds it back until its
+	// instant and then runs it at once.  If the code under test takes locks
+	// inside Close, the fault task parks at those points like any other task
+	// instead of blocking the simulator.
 	injectedAt, injected2At := -1, -1
 	var injectErr error
-	s := &core.Sched{Gate: env.NewGate(), LockMode: env.LockMode, Ch: ch, Cfg: p.cfg, KeepTrace: env.KeepTrace}
+	s := &core.Sched{Gate: env.NewGate(), LockMode: env.LockMode, Ch: ch, Cfg: p.cfg, KeepTrace: env.KeepTrace,
+		Gate2: map[int]func(int) bool{}, Urgent: map[int]bool{}}
+	faultDue := false // scheduler side only
 	s.StateExtra = func() uint64 {
-		if injectedAt >= 0 {
+		if faultDue {
 			return 0x9e37
 		}
 		return 0
 	}
-	s.OnDecision = func(step, inflight int) {
-		try := func(at, kind, target int, done *int) {
-			if at < 0 || *done >= 0 || step < at || kind >= disk.NumFaultKinds || target >= len(sub.Lists) || !sub.Applicable(kind, target) {
-				return
-			}
-			// a handle swap takes the list's own mutex, like an application
-			// would: while a parked reader holds it the fault waits
-			if !sub.CanInject(kind, target) {
-				out.Probes["fault_deferred_by_held_list_mutex"]++
-				return
-			}
-			if err := sub.Inject(kind, target, env.Dir, fp.n); err != nil {
-				injectErr = err
-			}
-			*done = step
-			out.Faults[faultName(kind)]++
-			if inflight > 0 {
-				out.Probes["faults_landed_with_a_query_in_flight"]++
-			}
+	// everything below that is written by a fault task is read only after
+	// the run (ordered by the task's exit); the scheduler side keeps its own
+	inflightNow := 0
+	s.OnDecision = func(step, inflight int) { inflightNow = inflight }
+	fired := make([]int, 0, 2)
+	type fault struct {
+		at, kind, target int
+		done             *int
+	}
+	var faults []fault
+	for _, f := range []fault{{fp.at, fp.kind, fp.target, &injectedAt}, {fp.at2, fp.kind2, fp.target2, &injected2At}} {
+		if f.at >= 0 && f.kind < disk.NumFaultKinds && f.target < len(sub.Lists) && sub.Applicable(f.kind, f.target) {
+			faults = append(faults, f)
 		}
-		try(fp.at, fp.kind, fp.target, &injectedAt)
-		try(fp.at2, fp.kind2, fp.target2, &injected2At)
+	}
+	if len(faults) > 0 {
+		// ONE fault task performs the faults of the plan one after the other
+		// (one application thread), parking in between until the next one is
+		// due; the gate below is evaluated by the scheduler only
+		id := len(bodies)
+		noted := 0
+		s.Urgent[id] = true
+		s.Gate2[id] = func(step int) bool {
+			k := s.Released(id) // faults already started
+			if k >= len(faults) {
+				return true
+			}
+			f := faults[k]
+			if step < f.at {
+				return false
+			}
+			// a handle swap takes the list's own mutex, like an
+			// application would: while a parked reader holds it the fault
+			// waits
+			if !sub.CanInject(f.kind, f.target) {
+				out.Probes["fault_deferred_by_held_list_mutex"]++
+				return false
+			}
+			if noted == k {
+				noted++
+				faultDue = true
+				fired = append(fired, f.kind)
+				if inflightNow > 0 {
+					out.Probes["faults_landed_with_a_query_in_flight"]++
+				}
+			}
+			return true
+		}
+		bodies = append(bodies, func(t *core.TaskCtx) {
+			for i, f := range faults {
+				if i > 0 {
+					t.Yield()
+				}
+				*f.done = t.Now()
+				if err := sub.Inject(f.kind, f.target, env.Dir, fp.n); err != nil {
+					injectErr = err
+				}
+			}
+		})
 	}
 	y, n := s.Hooks()
 	filterlist.VerifSetHooks(filterlist.VerifHooks{Yield: y, Note: n})
@@ -676,6 +720,9 @@ func runC19Conc(ch *core.Chooser, env *Env, out *Outcome) *Outcome {
 	if injectErr != nil {
 		out.Invalid, out.InvalidReason = true, "inject: "+injectErr.Error()
 		return out
+	}
+	for _, k := range fired {
+		out.Faults[faultName(k)]++
 	}
 
 	out.Steps = res.Steps
